@@ -98,6 +98,9 @@ package syntax
 //
 //@ fn Interceptors.NewSegment
 //@   requires icOK(i)
+//@   modifies syntax.Segment.ambiguousLength:
+//@   modifies syntax.Segment.ignoreName:
+//@   modifies syntax.Segment.Name:
 //@   requires [C05] shape: indexOf(val, "{") <= 0 || indexOf(val, "}") == -1
 //@   nopanic
 //@   modifies alloc
@@ -107,10 +110,18 @@ package syntax
 //@   ensures [C05] err: result1 != nil ==> result0 == nil
 //@   ensures [C02] string: result1 == nil && (indexOf(val, "{") == -1 || indexOf(val, "}") == -1) ==> result0.Type == 0
 //
+//@ pred shapeOK(val string) = indexOf(val, "{") <= 0 || indexOf(val, "}") == -1
+//
+//@ fn Type.String
+//@   requires [C05] known: 0 <= t && t <= 3
+//@   nopanic
+//
 //@ fn Segment.Split
 //@   requires segOK(seg) && icOK(i) && 0 <= pos && pos <= len(seg.Value)
-//@   ensures [C05] two: result1 == nil ==> len(result0) == 2 && segOK(result0[0]) && segOK(result0[1]) &&
-//@        result0[0].Value == seg.Value[:pos] && result0[1].Value == seg.Value[pos:]
+//@   requires [C05] cut: shapeOK(seg.Value[:pos]) && shapeOK(seg.Value[pos:])
+//@   ensures [C05] two: result1 == nil ==> len(result0) == 2 && result0[0].Value == seg.Value[:pos] && result0[1].Value == seg.Value[pos:]
+//@   ensures [C05] first-ok: result1 == nil ==> segShape(result0[0]) && segMatcher(result0[0]) && segRegexp(result0[0])
+//@   ensures [C05] second-ok: result1 == nil ==> segOK(result0[1])
 //
 //@ fn splitString
 //@   requires len(str) > 0
@@ -118,7 +129,9 @@ package syntax
 //@   modifies alloc
 //@   ensures [C05] nonempty: len(result) >= 1 && (forall k int :: 0 <= k && k < len(result) ==> len(result[k]) > 0)
 //@   ensures [C05] tokens-first: forall k int :: 1 <= k && k < len(result) ==> result[k][0] == '{'
-//@   inv 1 [C05] str: len(str) > 0 && 0 <= end && end < len(str)
+//@   ensures [C05] brace-first: forall k int :: 0 <= k && k < len(result) ==> indexOf(result[k], "{") <= 0
+//@   inv 1 [C05] str: len(str) > 0 && 0 <= end && end < len(str) && (end > 0 ==> str[0] == '{')
+//@   inv 1 [C05] brace: forall k int :: 0 <= k && k < len(ss) ==> indexOf(ss[k], "{") <= 0
 //@   inv 1 [C05] pieces: forall k int :: 0 <= k && k < len(ss) ==> len(ss[k]) > 0
 //@   inv 1 [C05] first: (len(ss) > 0 ==> str[0] == '{') && (forall k int :: 1 <= k && k < len(ss) ==> ss[k][0] == '{')
 //
@@ -126,6 +139,9 @@ package syntax
 //@   requires icOK(i)
 //@   ensures [C05] ok: result1 == nil ==> len(result0) >= 1 && (forall k int :: 0 <= k && k < len(result0) ==> segOK(result0[k]) && len(result0[k].Value) > 0)
 //@   ensures [C05] empty: str == "" ==> result1 != nil
+//@   inv 1 [C05] bound: -1 <= rangeindex && rangeindex < len(ss)
+//@   inv 1 [C05] segs: len(segs) == rangeindex + 1 && (forall k int :: 0 <= k && k < len(segs) ==> segOK(segs[k]) && allocated(segs[k]) && len(segs[k].Value) > 0)
+//@   inv 1 [C05] names: names != nil && (forall x string :: names[x] == 0 || names[x] == 1)
 //
 //@ fn Segment.Match
 //@   requires segOK(seg) && ctx != nil
